@@ -206,7 +206,11 @@ def build_all(run, profile):
 
 def check(run):
     thorough = run.tier == "thorough"
-    ok_proof, broken = vlib.proof_stage(run, "props/C19.v", GEN)
+    ok_proof, broken = vlib.proof_stage(run, "props/C19.v", GEN, extra_trusted=[
+        "harness c19: the per-split comparisons look only at the slots of the hashed positions (computed with the public HashBytes); "
+        "validated by PartialEq on the whole hasher on every line for tables up to 2 MB and on every 8th line for larger ones",
+        "the PRNG data generator exists twice (Rust harness, OCaml driver)",
+        "positions are modelled as unbounded naturals: theorems carry lim < 2^63, where no usize addition of the modelled code can wrap"])
     profiles = ["dev", "release"] if thorough else ["dev"]
     okmod, logmod, model, okh, logh, impl = build_all(run, "dev")
     if not okmod:
@@ -245,6 +249,22 @@ def check(run):
                 seen[dsc] = c
                 kinds.append((c, dsc))
         run.cov["kinds_by_config"] = {"%d/%d/%d/%d" % c: kind_name(dsc) for c, dsc in zip(cfgs, descs)}
+        # the side conditions of the H5-family / H10 theorems hold for every hasher the code builds
+        for c, dsc in kinds:
+            t = kind_name(dsc).split(":")
+            bad = None
+            if t[0] == "H5":
+                sh, bs, bm, bb, nl, bl = (int(x) for x in t[1:7])
+                if not (bb <= sh <= 32 and nl == bs and bl == bs * ((1 << bb) & 0xffffffff) and bm == (1 << bb) - 1):
+                    bad = "H5 fields outside the hypotheses of C19_*_H5 (block_bits <= hash_shift <= 32, table lengths)"
+            elif t[0] in ("H5q5", "H5q7"):
+                want = {"H5q5": (16384, 16384 * 16), "H5q7": (32768, 32768 * 64)}[t[0]]
+                if (int(t[1]), int(t[2])) != want:
+                    bad = "%s table lengths differ from bucket_size / bucket_size * block_size (adv_lens_ok)" % t[0]
+            elif t[0] == "H10" and int(t[3]) != (1 << 17):
+                bad = "H10 bucket table is not 1 << BUCKET_BITS long (hypothesis of C19_clone_H10)"
+            if bad:
+                run.report("proof-obligation", {"request": "D %d %d %d %d" % c, "kind": kind_name(dsc)}, {"impl": dsc}, broken=bad, found_input=False)
         run.note("profile %s: %d configurations select %d distinct hasher descriptors: %s" % (prof, len(cfgs), len(kinds), ", ".join(sorted(kind_name(k) for _, k in kinds))))
         sweep, rnd = scenarios(run, kinds, thorough)
         wit = witness_scenarios(kindmap)
